@@ -712,6 +712,13 @@ class E2ESuite(Suite):
                                                          ["redir", ["text with 'quotes' and $vars"], 0, "", 1],
                                                          ["redir", [""], 0, "", 1],
                                                          ["exec", ["after"], 0, "", 1]]}
+        # every control byte (other than NUL and CR) inside an argument, on both shells: either the shell class declares
+        # it forbidden (IllegalDataException, nothing sent) or the program receives it unaltered
+        ctl = [b for b in list(range(1, 32)) + [127] if b != 13]
+        for ash in (False, True):
+            for k in range(0, len(ctl), 8):
+                yield {"ash": ash, "chunk": 4096,
+                       "calls": [["exec", ["a" + chr(b) + "b"], 0, "6f6b0a", 1] for b in ctl[k:k + 8]] + [["exec", ["after"], 3, "", 1]]}
         for i in range(n):
             ash = i % 2 == 1
             calls = []
